@@ -364,6 +364,19 @@ def run_case(case, root, ck=None):
                                   if any(o in pending for o in uoids):
                                       cnt('multi-undo:same-object-twice')
                               undone.append(utid)
+                              if flavor == 'wrapfs':
+                                  # the legacy proxy finds the blobs to copy by the files named after the UNDONE tid; the
+                                  # copy it keeps for an un-creation is deleted by any pack, and a redo then commits a
+                                  # blob record without a file (corpus/C13/repro_legacy_proxy_redo_after_pack.py)
+                                  on_disk = env.scan()[0]
+                                  for o in uoids:
+                                      undone_val = [b2 for t2, b2 in L.hist.get(o, []) if t2 == utid]
+                                      if isinstance(newvals[o], bytes) and undone_val and undone_val[0] is None \
+                                              and (o, utid) not in on_disk \
+                                              and on_disk.get((o, u64(env.base._tid))) != newvals[o]:
+                                          bad('C13:legacy-proxy-redo-after-pack-loses-blob', 'redo of the un-creation %r after a pack: the wrapper copied no blob file '
+                                              'for the restored revision' % ((o, utid),))
+                                          newvals[o] = 'unknown'
                               pending.update(newvals)
                               for t, before in root_hist:
                                   if t == utid:
